@@ -488,13 +488,17 @@ def native_replay(pkg, rel_file, test_src, expect_desc, tag):
   tname = m.group(1)
   ok_any = False
   details = []
-  for prof in ([], ["--release"]):
-    # `cargo kani playback` rejects --target-dir: use CARGO_TARGET_DIR
+  for prof in ([], ["release-like"]):
+    # `cargo kani playback` has no --release: the second run emulates the release profile through
+    # cargo's profile environment overrides (opt-level 3, no debug assertions / overflow checks)
     e = env_for_kani()
     e["CARGO_TARGET_DIR"] = os.path.join(pdir, "target")
-    cmd = ["cargo", "kani", "playback", "-Z", "concrete-playback"] + prof + ["--", tname, "--exact"]
-    # --exact needs the full path; fall back to substring filter
-    cmd = ["cargo", "kani", "playback", "-Z", "concrete-playback"] + prof + ["--", tname]
+    if prof:
+      for k in ("DEV", "TEST"):
+        e["CARGO_PROFILE_%s_OPT_LEVEL" % k] = "3"
+        e["CARGO_PROFILE_%s_DEBUG_ASSERTIONS" % k] = "false"
+        e["CARGO_PROFILE_%s_OVERFLOW_CHECKS" % k] = "false"
+    cmd = ["cargo", "kani", "playback", "-Z", "concrete-playback", "--", tname]
     try:
       p = subprocess.run(cmd, cwd=pdir, env=e, stdout=subprocess.PIPE, stderr=subprocess.STDOUT, text=True,
                          timeout=1800)
